@@ -257,8 +257,8 @@ def entry_point_invalid_reasons(a: dict) -> list:
     if a.get("exclude_external_libraries") and (a.get("external_exclusions") or a.get("regex_external_exclusions")):
         reasons.append("external patterns while externals are excluded")
     try:
-        root = os.path.realpath(str(a["root_path"]))
-        mp = os.path.realpath(str(a["module_path"]))
+        root = os.path.realpath(os.fspath(a["root_path"]))
+        mp = os.path.realpath(os.fspath(a["module_path"]))
         if not (mp == root or mp.startswith(root + os.sep)):
             reasons.append("module_path outside root_path")
     except Exception:  # noqa: BLE001
